@@ -98,9 +98,12 @@ def native_ops(rng, n, rows):
 def sql_ops(rng, n, rows):
     ops = []
     for _ in range(n):
-        k = rng.randrange(8)
+        k = rng.randrange(9)
         tab, cs = rng.choice([("big", "*"), ("big", "b,id"), ("wr", "*"), ("small", "*"), ("words", "n,w")])
-        if k <= 1:
+        if k == 8:
+            # two result sets of one transaction open at the same time (one connection, two statements)
+            ops.append(["txnest", "small", "*", rng.choice(["words", "small", "wr"]), "*", str(rng.choice([1, 2, 3]))])
+        elif k <= 1:
             ops.append(["sqlq", tab, cs, str(rng.choice([-1, 0, 1, 3, 50])), rng.choice(["close", "cancel", "drain"])])
         elif k <= 3:
             ops.append(["sqlqc", tab, cs])
@@ -197,6 +200,12 @@ def check(run):
                 dist["op_kinds"][o[0]] = dist["op_kinds"].get(o[0], 0) + 1
                 dist["operations"] += 1
         src, want, serr = run_scn(text, "sequential", 1, 1)
+        bad = {"%s/%d" % k: v for k, v in want.items() if v.startswith("NESTED-MISMATCH")}
+        if bad:
+            run.violation("overlapping result sets of one database/sql transaction do not return the native rows: %s" % list(bad.values())[0][:200],
+                          {"kind": "nested-statements", "scenario": text, "results": bad})
+            found_concrete = True
+            continue
         if src != 0 or not want:
             run.violation("sequential run of scenario %d (%s) failed: rc=%s %s" % (sn, kind, src, race_summary(serr)[:300]),
                           {"kind": "sequential", "scenario": text, "stderr": serr[-3000:], "rc": src})
